@@ -10,6 +10,7 @@ pub mod util;
 pub mod netsim;
 
 pub mod c01_vital;
+pub mod c02_mesh;
 pub mod c02_progress;
 pub mod c03_token;
 pub mod c04_wellformed;
